@@ -6,7 +6,8 @@ with the reference array of mc/oracles/env_ref.py, `_at(t)` is evaluated on a
 time grid (multiples of 1/8 plus every breakpoint) against the constraints of
 the property (levels at breakpoints, betweenness inside a segment, last level
 afterwards) and - for the `def` sub-families - an `EnvGen` is built into a
-SynthDef whose bytes are decoded by an independent SCgf v2 reader; the unit's
+SynthDef whose bytes are decoded by the strict SCgf v2 reader
+mc/oracles/scgf.py; the unit's
 trailing inputs must be the same array (as float32)."""
 
 import copy
@@ -16,6 +17,7 @@ import struct
 from mc import core
 from mc.engines import progenum
 from mc.oracles import env_ref as ref
+from mc.oracles import scgf
 
 MODE = 'nrt'
 MODNAME = 'mc.checks.c19'
@@ -25,69 +27,6 @@ D = '<default>'      # sentinel: argument omitted (documented default applies)
 NAMES = list(ref.DOCUMENTED_NAMES)
 NUMS = [-4, 0, 2]
 SCALAR_CURVES = NAMES + NUMS
-
-
-# ---------------------------------------------------------------------------
-# Minimal private SCgf v2 reader (strict: must consume the buffer exactly).
-# Written from the "Synth Definition File Format" reference; no sc3 import.
-
-class _Rd:
-    def __init__(self, b):
-        self.b = bytes(b)
-        self.p = 0
-
-    def take(self, n):
-        if self.p + n > len(self.b):
-            raise ValueError('SCgf: truncated')
-        r = self.b[self.p:self.p + n]
-        self.p += n
-        return r
-
-    def i8(self):
-        return struct.unpack('>b', self.take(1))[0]
-
-    def i16(self):
-        return struct.unpack('>h', self.take(2))[0]
-
-    def i32(self):
-        return struct.unpack('>i', self.take(4))[0]
-
-    def f32(self):
-        return struct.unpack('>f', self.take(4))[0]
-
-    def pstr(self):
-        n = self.take(1)[0]
-        return self.take(n).decode('latin-1')
-
-
-def read_scgf(b):
-    r = _Rd(b)
-    if r.take(4) != b'SCgf':
-        raise ValueError('SCgf: bad magic')
-    if r.i32() != 2:
-        raise ValueError('SCgf: not version 2')
-    defs = []
-    for _ in range(r.i16()):
-        d = {'name': r.pstr()}
-        d['constants'] = [r.f32() for _ in range(r.i32())]
-        npar = r.i32()
-        d['params'] = [r.f32() for _ in range(npar)]
-        d['param_names'] = [(r.pstr(), r.i32()) for _ in range(r.i32())]
-        units = []
-        for _ in range(r.i32()):
-            u = {'name': r.pstr(), 'rate': r.i8()}
-            nin, nout = r.i32(), r.i32()
-            u['special'] = r.i16()
-            u['inputs'] = [(r.i32(), r.i32()) for _ in range(nin)]
-            u['outputs'] = [r.i8() for _ in range(nout)]
-            units.append(u)
-        d['units'] = units
-        d['variants'] = [(r.pstr(), [r.f32() for _ in range(npar)])
-                         for _ in range(r.i16())]
-        defs.append(d)
-    if r.p != len(r.b):
-        raise ValueError('SCgf: trailing bytes')
-    return defs
 
 
 def f32(x):
@@ -269,7 +208,7 @@ def check_def(case, exp, spec, outcome):
         return [(raise_kind('def', e, case), exp, _exc(e),
                  'building a definition with EnvGen raised')]
     try:
-        defs = read_scgf(data)
+        defs = scgf.decode(data)['defs']
     except Exception as e:
         return [('def-unreadable', 'SCgf v2', _exc(e), data.hex()[:400])]
     units = [u for d in defs for u in d['units'] if u['name'] == 'EnvGen']
@@ -279,11 +218,11 @@ def check_def(case, exp, spec, outcome):
     u = units[0]
     consts = defs[0]['constants']
     vals = []
-    for a, b in u['inputs']:
-        if a == -1 and 0 <= b < len(consts):
-            vals.append(consts[b])
+    for inp in u['inputs']:
+        if inp[0] == 'c' and 0 <= inp[1] < len(consts):
+            vals.append(consts[inp[1]])
         else:
-            vals.append(['unit', a, b])
+            vals.append(list(inp))
     outcome['def_inputs'] = vals
     want = [f32(x) for x in exp]
     dis = []
@@ -328,7 +267,7 @@ def is_nontrivial(case):
                             or 'levels' in a)
     key = 'pairs' if name == 'pairs' else 'xyc'
     xs = [p[0] for p in a[key]]
-    return xs != sorted(xs) or xs[0] != 0 or \
+    return xs != sorted(xs) or xs[0] != 0 or len(set(xs)) < len(xs) or \
         isinstance(a.get('curves'), list) or name == 'xyc'
 
 
@@ -438,12 +377,18 @@ def gen_step(p, shard, of):
 
 
 def gen_points(p, shard, of):
-    """pairs / xyc: all orderings of k distinct x positions, all y lists,
-    curve menus."""
+    """pairs / xyc: all orderings of k distinct x positions (or, with
+    `ties`, every x sequence in which at least two points share their time,
+    in every input order and both level orders), all y lists, curve menus."""
     name = p['name']
     idx = 0
     for k in range(2, p['maxpts'] + 1):
-        for xs in itertools.permutations(p['X'], k):
+        if p.get('ties'):
+            xseqs = [xs for xs in itertools.product(p['X'], repeat=k)
+                     if len(set(xs)) < k]
+        else:
+            xseqs = itertools.permutations(p['X'], k)
+        for xs in xseqs:
             for ys in itertools.product(p['Y'], repeat=k):
                 mine = idx % of == shard
                 idx += 1
@@ -578,6 +523,17 @@ def families(tier):
         'name': 'xyc', 'def': None, 'X': [0, 0.5, 1, 2], 'Y': [0, 1, 2],
         'maxpts': 3 if q else 4,
         'Clist': ['lin', -4, 'exp'] if q else ['lin', -4, 'exp']}, 32))
+    # equal-time points (vertical jumps): the documented order is "sorted
+    # regarding their point in time", i.e. ties keep their input order
+    fams.append(('ctor-pairs-ties', 'points', {
+        'name': 'pairs', 'def': 'kr', 'ties': True,
+        'X': [0, 1, 2] if q else [0, 0.5, 1, 2], 'Y': [0, 1, 2],
+        'maxpts': 3, 'Cscalar': ['sin', -4, 'exp'],
+        'Clist': ['lin', -4] if q else ['lin', -4, 'exp']}, 16))
+    fams.append(('ctor-xyc-ties', 'points', {
+        'name': 'xyc', 'def': None, 'ties': True,
+        'X': [0, 1, 2] if q else [0, 0.5, 1, 2], 'Y': [0, 1, 2],
+        'maxpts': 3, 'Clist': ['lin', -4, 'exp']}, 32))
     return fams
 
 
@@ -642,7 +598,7 @@ def main(ctx):
         'reference mc/oracles/env_ref.py: EnvGen array layout, server shape '
         'numbers and constructor breakpoints typed from the Env/EnvGen '
         'documentation',
-        'private SCgf v2 reader in the check module (file-format reference)',
+        'mc/oracles/scgf.py: strict SCgf v2 reader (file-format reference)',
         'don\'t-cares: value before time 0; value inside/at the start of a '
         'segment outside its shape\'s documented domain (exp: same sign, '
         'non-zero; sqr/cub: non-negative); node numbers of Env.step when a '
